@@ -78,6 +78,8 @@ def mk_arguments(full, annotated=True):
 def field_variants(cls, typ, quant, name):
     """list of (label, thunk) values for one field"""
     if typ == 'expr':
+        if getattr(ast, 'TypeAlias', None) is cls and name == 'name':
+            return [('Name', lambda: P(ast.Name(id='Alias', ctx=ast.Store())))]         # grammar: `type NAME = ...`
         if name in TARGET_FIELDS:
             vs = store_targets()
             if cls is ast.AnnAssign:
